@@ -118,25 +118,15 @@ def run_rules(ctx, chk):
     n_sites = 0
     writers = {}
     seen = set()
-    has_store = {b.path for b in fb.bodies() if any(fn and atomic_kind(mir.callee_name(fn)) in ATOMIC_WRITES for bb, t, fn in common.user_calls(b))}
-    for b in fb.bodies():
-        if b.crate.kind == 'bin' and b.crate.name == 'clockbound_client_rust_example':
+    from .seqlock_model import mapping_store_sites
+    bodies = [b for b in fb.bodies() if not (b.crate.kind == 'bin' and b.crate.name == 'clockbound_client_rust_example')]
+    for kind, site, owner, ev in mapping_store_sites(fb, bodies, kinds=('gstore', 'vstore', 'astore')):
+        owner = owner.split('::{closure')[0]
+        if site in seen:
             continue
-        sites = [bb for bb, t, fn in common.user_calls(b) if fn and atomic_kind(mir.callee_name(fn)) in ATOMIC_WRITES]
-        if not sites:
-            continue
-        from .startup_model import is_reader_new, init_reader_open
-        init_reader_open(fb)
-        eng = common.mk_engine(fb, inline_depth=8, no_inline=is_reader_new)
-        for p in eng.run(b):
-            for e in classify_effects(p):
-                owner = e.ef['site'][0].split('::{closure')[0]
-                if e.kind in ('gstore', 'vstore', 'astore') and e.site not in seen:
-                    if owner != b.path and owner in has_store:
-                        continue        # classified with its own function as the root
-                    seen.add(e.site)
-                    n_sites += 1
-                    writers.setdefault(owner, []).append((e.kind, e.site, fmt(e.value)[:40] if e.value else None))
+        seen.add(site)
+        n_sites += 1
+        writers.setdefault(owner, []).append((kind, site, fmt(ev.value)[:40] if ev.value else None))
     allowed_gen = {w.body.path}
     for path, lst in writers.items():
         for kind, site, val in lst:
